@@ -122,6 +122,7 @@ type stats struct {
 	overflowThenRelease, releaseAfterReuse, twoForw bool
 	recreated                                       bool
 	createdAgain                                    bool // a Create PDR for a PDR that exists (refused), with the session going on
+	gaveUp                                          bool // a downlink data notification abandoned after its last retransmission, packets held
 	silent                                          bool // packets handed up for a session whose SMF cannot be sent a report request
 	takeover                                        bool // a session taken over by the other SMF, with notifications afterwards
 	late                                            bool // notifications delivered after the removal of their PDR
@@ -664,6 +665,31 @@ func run(c Case) (v *vcore.Violation, stt stats) {
 			if g := drainGNBs(); len(g) > 0 {
 				return vcore.Violatef("unexpected-emission", "%s: packets emitted on PDR creation", what), stt
 			}
+		case "giveup":
+			// the SMFs answer none of the downlink data notifications outstanding: each request runs out of retransmissions
+			// and is abandoned.  What is held stays held - the FAR still buffers, the session and its PDRs are there
+			for id := range f.S.Srv.VerifTxTable() {
+				for k := 0; k < 8; k++ {
+					if _, still := f.S.Srv.VerifTxTable()[id]; !still {
+						stt.gaveUp = true
+						break
+					}
+					o := r.Step(stack.Op{Kind: "expire_tx", TrID: id})
+					if x := dead(o, what); x != nil {
+						return x, stt
+					}
+					for s := range r.Pending {
+						r.Pending[s] = nil
+					}
+				}
+			}
+			kept = nil
+			if x := queuesMatch(what); x != nil {
+				return x, stt
+			}
+			if g := drainGNBs(); len(g) > 0 {
+				return vcore.Violatef("unexpected-emission", "%s: packets emitted when a notification was given up", what), stt
+			}
 		case "takeover":
 			// another SMF of the set takes the session over (a Modification naming its own Node ID): from now on the session's
 			// downlink data notifications are raised towards that SMF, and it is that SMF that makes the FAR forward
@@ -789,7 +815,7 @@ func gen(t *rapid.T) Case {
 		c.Sess = append(c.Sess, genSess(t, uint64(0x60+i)))
 	}
 	// scripted cores make the interesting shapes frequent; free-form events follow
-	scen := rapid.SampledFrom([]string{"free", "free", "overflow", "twoforw", "reuse", "reuseorphan", "lateseid0", "reassocreuse", "recreate", "recreatelate", "createagain", "refill", "dropshared", "takeover"}).Draw(t, "scenario")
+	scen := rapid.SampledFrom([]string{"free", "free", "overflow", "twoforw", "reuse", "reuseorphan", "lateseid0", "reassocreuse", "recreate", "recreatelate", "createagain", "refill", "dropshared", "takeover", "giveup"}).Draw(t, "scenario")
 	if scen != "free" {
 		c.Sess[0].FARs[0].Action = rapid.SampledFrom([]uint16{BUFF, BUFF | NOCP}).Draw(t, "a0")
 		c.Sess[0].PDRs[0].FAR = 1
@@ -799,6 +825,9 @@ func gen(t *rapid.T) Case {
 	}
 	forw := Ev{Kind: "updfar", Sess: 0, FAR: 1, Action: FORW}
 	switch scen {
+	case "giveup":
+		c.Sess[0].FARs[0].Action = BUFF | NOCP
+		c.Evs = append(c.Evs, small(), Ev{Kind: "burst", Sess: 0, Target: "live", PDR: 1, N: 2, NOCP: true}, Ev{Kind: "giveup"}, small(), forw)
 	case "takeover":
 		// a notification (with NOCP: the SMF is told), the other SMF takes the session over, more packets arrive: the new
 		// owner is told, and it is the new owner that releases all of them.  (No random events behind this one: what
@@ -880,7 +909,7 @@ func gen(t *rapid.T) Case {
 		nsess++
 	}
 	for i := 0; i < n; i++ {
-		k := rapid.SampledFrom([]string{"burst", "burst", "burst", "burst", "updfar", "updfar", "updfar", "updfar", "rmpdr", "mkpdr", "del", "reassoc", "est", "est", "rsp0"}).Draw(t, "kind")
+		k := rapid.SampledFrom([]string{"burst", "burst", "burst", "burst", "updfar", "updfar", "updfar", "updfar", "rmpdr", "mkpdr", "del", "reassoc", "est", "est", "rsp0", "giveup"}).Draw(t, "kind")
 		ev := Ev{Kind: k, Sess: rapid.IntRange(0, nsess-1).Draw(t, "sess")}
 		switch k {
 		case "burst":
@@ -946,6 +975,9 @@ func brief(c Case) any {
 func account(c Case, s stats) {
 	if s.takeover {
 		vcore.E.Class("notifications_after_a_takeover_by_the_other_smf")
+	}
+	if s.gaveUp {
+		vcore.E.Class("notification_given_up_with_packets_held")
 	}
 	if s.silent {
 		vcore.E.Class("packets_for_a_session_whose_smf_cannot_be_notified")
